@@ -98,13 +98,23 @@ func TomlKeyToEvCode(key string, lookupTable map[string]evdev.EvCode) (evdev.EvC
 
 }
 
-func ParseData(data []byte) (Config, error) {
+// recoverDecode turns a panic of the TOML decoder into an error: the decoder panics on some ill-typed values
+// (e.g. a date where a number is expected) instead of returning one.
+func recoverDecode(err *error) {
+	if r := recover(); r != nil {
+		*err = fmt.Errorf("parsing failed: %v", r)
+	}
+}
+
+func ParseData(data []byte) (result Config, err error) {
+	defer recoverDecode(&err)
+
 	cfg := TOMLDeviceConfig{}
 
 	d := toml.NewDecoder(bytes.NewReader(data))
 	d.DisallowUnknownFields()
 
-	err := d.Decode(&cfg)
+	err = d.Decode(&cfg)
 	if err != nil {
 		return Config{}, fmt.Errorf("parsing failed: %w", err)
 	}
